@@ -1,6 +1,8 @@
 // Driver for C16 (ChannelMapping.tla): replays offer / fwdcheck / handoff plans through the real
 // util.ChannelMapping with exactly the call protocol of the channel manager
-// (core/reader/replicate_channel_manager.go; line numbers below refer to that file).
+// (core/reader/replicate_channel_manager.go; line numbers below refer to that file as anchored in
+// properties.jsonl - later /repo commits moved the three functions by a couple of lines without changing them;
+// checks/c16.py fingerprints their text and refuses to run against a protocol it does not know).
 //
 // The manager's three critical sections under channelLock are transcribed one to one:
 //
